@@ -956,6 +956,16 @@ pub fn generate_c16(tier: &str, seed: u64, out: &mut Out) {
             sand.push(foreign[2].clone());
             priors.push(sand);
         }
+        {
+            // priors whose fields differ from the struct's keys only in letter case: foreign fields
+            // for both back-ends (field lookup is case-sensitive), kept untouched by an update
+            priors.push(lower.clone());
+            let upper: Vec<(String, String)> = full(1).into_iter().map(|(k, v)| (k.to_uppercase(), v)).collect();
+            priors.push(upper.clone());
+            let mut both = lower.clone();
+            both.extend(full(1));
+            priors.push(both);
+        }
         let mut srcs: Vec<Vec<(String, String)>> = vec![full(0), full(1), mand.clone()];
         for i in 0..n {
             if row.fields[i].optional {
